@@ -73,6 +73,8 @@ def pdu_bytes(name):
     if name == "U": return tpkt(x224_data(b"\x21\x80"))
     if name == "X": return tpkt(x224_data(b"\x00\x00\x00\x00\x00\x00\x00\x00"))     # MCS: invalid opcode
     if name == "Y": return tpkt(x224_data(b""))                                       # MCS header missing: Error::Io
+    if name == "XU": return slow_frame(font_map(), chan=1004)                         # data on the joined USER channel: RdpError(UnexpectedType)
+    if name == "Z": return bytes([0, 2])                                              # an EMPTY fast-path PDU (header only): read, no event
     raise ValueError(name)
 
 def base(piece): return piece.split("/")[0]
@@ -237,6 +239,16 @@ def gen_cases(tier, rng):
     #    Every probe that the script takes while the outcome depends on a race is avoided: a GL is issued only after a
     #    pause or probe has let the thread come to rest, so that who holds the mutex is determined.
     for line in gui_scenarios(tier, rng): add(line)
+    # 10. an empty fast-path PDU (header only) in front of / between / behind bitmap PDUs of the same record; an error of the
+    #     kind UnexpectedType (data on the user channel) as the end of the session; odd seeds run the session as NLA (Hybrid)
+    for sd in (1, 2):
+        add(mk(["W:Z+B1", "I:100:1", "J:150"], seed=sd))
+        add(mk(["W:B1+Z+B2+Z", "I:100:2", "W:U", "J:3000"], seed=sd))
+        add(mk(["W:Z", "I:100:0", "W:B1", "I:100:1", "W:Z+U", "J:3000"], seed=sd))
+        add(mk(["W:B1", "I:60:1", "W:XU", "J:3000"], seed=sd))
+        add(mk(["W:B1+B2+XU", "J:3000"], seed=sd))
+        add(mk(["W:B1+B2", "I:100:2", "J:150"], seed=sd))
+        add(mk(["W:B1+B2+B3", "P:5", "W:B4+U", "J:3000"], seed=sd))
     return cases
 
 def ids_of(pdus): return nevents(pdus)
